@@ -11,7 +11,8 @@ def run(res, replay=None):
     res.rule = ('projection stream: one population, n = 3..8 (thorough: ..10), Kingman / Beta / Dirac with random dyadic '
                 'parameters, random size histories (1-4 epochs), random end time or the common default horizon: the '
                 'expected SFS of n-1 samples must be the hypergeometric down-projection of that of n samples (1e-9), and '
-                'expected height and branch length must not decrease in n')
+                'expected height and branch length must not decrease in n; the same for the values of one accumulate(1, [T/4, T/2, T]) '
+                'call and for the window [T/4, T] (start_time > 0)')
     res.assumptions = []
     ncase = 10 if res.tier == 'quick' else 80
     cases = []
